@@ -55,6 +55,10 @@ func (s FieldQueryString) Build() (*FieldQuery, error) {
 }
 
 func (s FieldQueryString) build(v reflect.Value) (*FieldQuery, error) {
+	if !v.IsValid() {
+		// null: a query that selects no field (BuildFieldQuery without arguments)
+		return &FieldQuery{}, nil
+	}
 	switch v.Type().Kind() {
 	case reflect.String:
 		return s.buildString(v)
@@ -70,6 +74,9 @@ func (s FieldQueryString) build(v reflect.Value) (*FieldQuery, error) {
 
 func (s FieldQueryString) buildString(v reflect.Value) (*FieldQuery, error) {
 	b := []byte(v.String())
+	if len(b) == 0 {
+		return nil, fmt.Errorf("failed to build field query. empty field name")
+	}
 	switch b[0] {
 	case '[', '{':
 		var query interface{}
